@@ -76,7 +76,7 @@ func selftest(seed int64) int {
 			}()
 			lgh := newLookupHostGen(r, rand.New(rand.NewSource(1)), 0, 3, 3)
 			lookupNegativeRuns(r, lg, lgh)
-			report("MC_Lookup: every repair is necessary in the model", r.getCov("lookup_model_defects_reproduced") == int64(len(lookupFixes))+1, "")
+			report("MC_Lookup: every repair is necessary in the model", r.getCov("lookup_model_defects_reproduced") == int64(len(lookupFixes))+1 /* F1 is reproduced in both modes */, "")
 		}()
 		selftestHooks(r, report)
 	}()
